@@ -1,6 +1,6 @@
 """C12 -- classes keep their members, bases, metaclass, method kinds and super()."""
 import itertools, json, sys
-from common import Check, fresh_oneliner, load_known_findings
+from common import Check, fresh_oneliner, load_known_findings, StepLimit
 import gen_prog, lower_common, par
 
 OL = None
@@ -150,10 +150,11 @@ def run(code, mode):
     g = {'L': lambda a: log.append(re.sub(r'0x[0-9a-f]+', '0x', repr(a))), 'MEMBERS_USED': ()}
     exec(OBS.replace("    class Sub(c, extra=3) if hasattr(c, 'extra') or 'init-subclass' in MEMBERS_USED else c:\n        pass\n", ""), g)
     try:
-        if mode == 'exec':
-            exec(compile(code, '<s>', 'exec'), g)
-        else:
-            eval(compile(code, '<o>', 'eval'), g)
+        with StepLimit():
+            if mode == 'exec':
+                exec(compile(code, '<s>', 'exec'), g)
+            else:
+                eval(compile(code, '<o>', 'eval'), g)
     except BaseException as e:
         log.append('EXC ' + type(e).__name__ + ' ' + str(e)[:80])
     return log
